@@ -65,12 +65,41 @@ def case_of(inp):
 
 
 def snippet(inp):
-    return ("f=%s; a=%r; b=%r; n=%d; atol=%r  # opda.approximation.minimax_polynomial_approximation(f, a, b, n, atol=atol)"
+    src = G.source_of(inp["f"])
+    return ("f=%s; a=%r; b=%r; n=%d; atol=%r  # opda.approximation.minimax_polynomial_approximation(f, a, b, n, atol=atol)%s"
             % (inp["f"], C.unhex(inp["a"]), C.unhex(inp["b"]), inp["n"],
-               None if inp["atol"] is None else C.unhex(inp["atol"])))
+               None if inp["atol"] is None else C.unhex(inp["atol"]), "" if src is None else "  with " + src))
 
 
-def gen_cases(rng, tier):
+def gen_return_kind_cases(rng, tier):
+    """the kind of object f hands back (gen_approx.RET_ALIAS / RET_FRESH): f(x) = x in every spelling that returns the argument
+    itself or a view of it, for n = 0..3 (n = 0: minimax error (b-a)/2; n >= 1: exact fit), on [1,2] and on random intervals of
+    the property's widths; and members of the whole family returning read-only / non-contiguous arrays"""
+    cases = []
+    reps = 1 if tier == "quick" else 6
+    for ret in G.RET_ALIAS:
+        for n in (0, 1, 2, 3):
+            for r in range(reps):
+                if (r == 0 and rng.random() < 0.5) or r == 1:
+                    a, w = 1.0, 1.0
+                else:
+                    w = G.gen_width(rng)
+                    a = rng.choice([rng.uniform(-5.0, 5.0 - min(w, 9.0)), float(rng.randint(-3, 3))])
+                cases.append((G.spec("poly", 0.0, 1.0, ret=ret), a, a + w, n, G.gen_atol(rng)))
+    nmax_hist = [0, 1, 2, 3, 4, 5, 6, 8, 10]
+    for ret in G.RET_FRESH:
+        for _ in range(4 if tier == "quick" else 40):
+            if rng.random() < 0.3:
+                n = rng.randint(0, 5)
+                sp, a, b = G.gen_function(rng, n, kinds=("poly",))
+            else:
+                sp, a, b = G.gen_function(rng, None, kinds=("pow", "exp", "log", "rec"))
+                n = G.gen_degree(rng, sp, a, b, nmax_hist)
+            cases.append((dict(sp, ret=ret), a, b, n, G.gen_atol(rng)))
+    return cases
+
+
+def gen_cases(rng, tier, rng_ret=None):
     cases = []
     count = 220 if tier == "quick" else 2500
     nmax_hist = [0, 1, 2, 3, 4, 5, 6, 7, 8, 10, 12, 14, 16, 18, 20] if tier == "quick" else list(range(21))
@@ -113,6 +142,8 @@ def gen_cases(rng, tier):
             sp = G.spec("rec", -a + G.log_uniform(rng, 1e-3, 1e-2))
             w = G.log_uniform(rng, 0.1, 10.0)
         cases.append((sp, a, a + w, n, G.log_uniform(rng, 1e-10, 1e-6)))
+    if rng_ret is not None:
+        cases += gen_return_kind_cases(rng_ret, tier)      # a stream of its own: the cases above stay what they were per seed
     # call history: a fraction of all cases is preceded by a call with the same function object, interval and degree but a
     # looser tolerance (a result must not depend on what was solved before)
     out = []
@@ -248,9 +279,10 @@ def run(seed, tier, replay=None):
         v = replay.get("violation", replay)
         cases = [case_of(v["input"])]
     else:
-        cases = gen_cases(rng, tier)
+        cases = gen_cases(rng, tier, C.rng_for("C17/return-kinds", seed))
 
     reqs, meta = [], []
+    late = []       # closed-form verdicts, reported after the certificate verdicts (which own the replay of a shared finding key)
     err_by_case = {}
     for ci, (spec, a, b, n, atol, prime) in enumerate(cases):
         f = G.make_f(spec)
@@ -266,6 +298,11 @@ def run(seed, tier, replay=None):
                     pass
         at = G.atol_value(atol)
         rep.count("f=" + spec["kind"])
+        if spec.get("ret") is not None:
+            rep.count("f_returns=%s(%s)" % (spec["ret"], "its argument / a view of it" if spec["ret"] in G.RET_ALIAS
+                                             else "a fresh array"))
+            rep.count("f_returns=%s:n=%d" % ("argument_or_view" if spec["ret"] in G.RET_ALIAS else "readonly_or_strided", min(n, 4))
+                      + ("+" if n >= 4 else ""))
         rep.count("n=%d" % n if n < 10 else "n=%d-%d" % (5 * (n // 5), 5 * (n // 5) + 4))
         rep.count("atol=" + ("None" if atol is None else "1e%d" % int(np.floor(np.log10(atol)))))
         rep.count("width=1e%d" % int(np.floor(np.log10(b - a) + 1e-12)))
@@ -390,6 +427,21 @@ def run(seed, tier, replay=None):
                 violate(rep, what="f is a polynomial of degree <= n but the reported error exceeds atol", input=inp,
                             observed=err, expected="<= %r" % at, call=snippet(inp), max_abs_f=maxf,
                             finding_key="C17-exactfit-excess-within-16ulp-of-maxf" if err - at <= 16 * ULP * maxf else None)
+        # ---- degree 0, f monotone on [a,b] (every member of the family but general polynomials): the minimax error is
+        #      |f(b)-f(a)|/2 in closed form, and the clauses above put err within [E-atol-1e-11*max|f|, E+atol+1e-13] of it
+        if n == 0 and (f.poly is None or len(f.poly) == 2):
+            (la, lb), (ha, hb) = G.enclose(f, [a, b])
+            e_lo, e_hi = max(Fr(0), min(abs(lb - ha), abs(hb - la))) / 2, max(abs(lb - ha), abs(hb - la), abs(hb - ha), abs(lb - la)) / 2
+            rep.case(("closed-form-n0",) + key)
+            rep.count("closed_form_degree_0_cases")
+            over = Fr(err) - (e_hi + Fr(at) + G.SLACK)
+            under = (e_lo - Fr(at) - Fr(1, 10 ** 11) * Fr(maxf)) - Fr(err)
+            if over > 0 or under > 0:
+                late.append(dict(what="degree 0, f monotone: the reported error is not within atol of the closed-form minimax error "
+                                  "|f(b)-f(a)|/2 (upper side +1e-13, lower side -1e-11*max|f|, as the certificate clauses imply)",
+                        input=inp, observed=err, expected=float((e_lo + e_hi) / 2), max_abs_f=maxf, call=snippet(inp),
+                        finding_key=("C17-lower-bound-shortfall-within-16ulp-of-maxf"
+                                     if over > 0 and over <= Fr(16 * ULP * maxf) else None)))
         # ---- monotone in n
         if n < 20 and (tier != "quick" or ci % 2 == 0):
             with warnings.catch_warnings():
@@ -483,10 +535,14 @@ def run(seed, tier, replay=None):
                 rep.count("upper=certified_for_all_x(verified PolyQ certificate)")
             else:
                 rep.count("upper=grid+refinement(certificate not found)")
+    for kw in late:
+        violate(rep, **kw)
     return rep.result(
         rule="cases (f, a, b, n, atol): f in {x^k (k in (-0.9,6) non-integer incl. half-integers, [a,b] in (0,10]), exp(lx), "
              "log(x+d), 1/(x+d), polynomials of degree <= n+1}, b-a in [1e-3,10], n in 0..20, atol in {None} u [1e-13,1e-6]; a stratum "
-             "with minimax error >= 1 (exp/x^k/reciprocal with large |f|, n <= 4); every 4th case is preceded by a call on the same "
+             "with minimax error >= 1 (exp/x^k/reciprocal with large |f|, n <= 4); a stratum on the object f hands back: f(x)=x returning "
+             "its argument / a view of it (7 spellings, n=0..3), any member returning read-only / strided fresh arrays; degree 0 "
+             "and f monotone: err against the closed form |f(b)-f(a)|/2; every 4th case is preceded by a call on the same "
              "function object, interval and degree with a looser atol (history independence); the returned polynomial is also used "
              "as a caller would: scalar queries (Python float, numpy scalar, 0-d array) at distances {1e-10..1e-6}*(b-a) and "
              "{1e-9,1e-8} on both sides of the reference points, and sequences of equally shaped queries (scalars, lists, 1-/2-/3-D "
